@@ -551,6 +551,92 @@ theorem controls_aligned (root : Str) (lists : List Str) (rows : List Cells) (se
             rw [body_controls_in_row_order _ ks items hp]
             exact allControls_aligned lists rows 2 cs ks h1 hc
 
+/-! ### exactly one `jr:template` copy per repeat, at every depth -/
+
+mutual
+/-- number of `jr:template` nodes whose name satisfies `p`, anywhere in the tree -/
+def tmplCount (p : Str → Bool) : NT → Nat
+  | .node n t ks => (if t && p n then 1 else 0) + tmplCountL p ks
+def tmplCountL (p : Str → Bool) : List NT → Nat
+  | [] => 0
+  | k :: ks => tmplCount p k + tmplCountL p ks
+end
+
+mutual
+/-- number of repeats whose name satisfies `p`, anywhere in the element tree -/
+def repCount (p : Str → Bool) : Item → Nat
+  | .q _ => 0
+  | .sec .rep n _ ks => (if p n then 1 else 0) + repCountL p ks
+  | .sec .group _ _ ks => repCountL p ks
+  | .sec .loop _ _ ks => repCountL p ks
+def repCountL (p : Str → Bool) : List Item → Nat
+  | [] => 0
+  | k :: ks => repCount p k + repCountL p ks
+end
+
+theorem tmplCountL_append (p : Str → Bool) (a b : List NT) :
+    tmplCountL p (a ++ b) = tmplCountL p a + tmplCountL p b := by
+  induction a with
+  | nil => simp [tmplCountL]
+  | cons x xs ih => simp [tmplCountL, ih, Nat.add_assoc]
+
+theorem tmplKids_unfold_q (d : QData) (rest : List Item) :
+    tmplKids (.q d :: rest) = (if d.node then [NT.node d.name false []] else []) ++ tmplKids rest := by
+  simp [tmplKids]
+
+theorem tmplCountL_qnode (p : Str → Bool) (d : QData) :
+    tmplCountL p (if d.node then [NT.node d.name false []] else []) = 0 := by
+  split <;> simp [tmplCountL, tmplCount]
+
+mutual
+/-- inside the ordinary copy of a repeat no template is generated -/
+theorem no_template_in_copy (p : Str → Bool) (its : List Item) : tmplCountL p (instKids true its) = 0 := by
+  cases its with
+  | nil => simp [instKids, tmplCountL]
+  | cons it rest =>
+    cases it with
+    | q d => rw [instKids_unfold_q, tmplCountL_append, tmplCountL_qnode, no_template_in_copy p rest]
+    | sec ct n b ks =>
+      cases ct <;> simp [instKids, tmplCountL, tmplCount, no_template_in_copy p ks, no_template_in_copy p rest]
+end
+
+mutual
+theorem templates_in_template (p : Str → Bool) (its : List Item) :
+    tmplCountL p (tmplKids its) = repCountL p its := by
+  cases its with
+  | nil => simp [tmplKids, tmplCountL, repCountL]
+  | cons it rest =>
+    cases it with
+    | q d =>
+      rw [tmplKids_unfold_q, tmplCountL_append, tmplCountL_qnode, templates_in_template p rest]
+      simp [repCountL, repCount]
+    | sec ct n b ks =>
+      cases ct <;>
+        simp [tmplKids, tmplCountL, tmplCount, repCountL, repCount, templates_in_template p ks,
+          templates_in_template p rest, templates_top p ks]
+theorem templates_top (p : Str → Bool) (its : List Item) :
+    tmplCountL p (instKids false its) = repCountL p its := by
+  cases its with
+  | nil => simp [instKids, tmplCountL, repCountL]
+  | cons it rest =>
+    cases it with
+    | q d =>
+      rw [instKids_unfold_q, tmplCountL_append, tmplCountL_qnode, templates_top p rest]
+      simp [repCountL, repCount]
+    | sec ct n b ks =>
+      cases ct <;>
+        simp [instKids, tmplCountL, tmplCount, repCountL, repCount, templates_in_template p ks,
+          templates_top p ks, templates_top p rest, no_template_in_copy p ks, Nat.add_assoc]
+end
+
+/-- **One template per repeat, at every depth**: in the primary instance the number of `jr:template` nodes
+    named `nm` equals the number of repeats named `nm` in the element tree — for every tree, however the repeats
+    are nested in groups and in each other (a repeat reached through a group inside another repeat's template
+    still gets exactly one template copy; its ordinary copies get none). -/
+theorem one_template_per_repeat (root : Str) (its : List Item) (p : Str → Bool) :
+    tmplCount p (instanceOf root its) = repCountL p its := by
+  simp [instanceOf, tmplCount, templates_top]
+
 /-! ### Non-vacuity -/
 
 def exEntryText : List (String × String × String) := [("control", "tag", "input"), ("bind", "type", "string")]
@@ -606,5 +692,12 @@ example : (match allControls [k!"yn"] 2 exSheet,
     | .ok cs, .ok o => cs.map (·.1) == o.ctl.map (·.1) && cs.length == 4 &&
         cs.head? == some (k!"input", [(k!"appearance", k!"multiline"), (k!"rows", k!"3")])
     | _, _ => false) = true := by decide +kernel
+
+-- templates: repeat r holds group g holding repeat r2 (the nesting of seeded C04-4): one template each
+def exNested : List Item :=
+  [.sec .rep (k!"r") false [.q (q "a"), .sec .group (k!"g") false [.sec .rep (k!"r2") false [.q (q "b")]]]]
+example : tmplCount (fun _ => true) (instanceOf (k!"data") exNested) = 2 ∧
+    tmplCount (· == k!"r2") (instanceOf (k!"data") exNested) = 1 ∧ repCountL (· == k!"r2") exNested = 1 := by
+  decide +kernel
 
 end Pyxv.C04
